@@ -298,6 +298,10 @@ class Vec(list):
     def dot(self, other):
         raise Unsupported("Vec.dot")
 
+    @property
+    def size(self):
+        return len(self)
+
 
 def strip(fn: ast.FunctionDef) -> ast.FunctionDef:
     """mechanical extraction: drop annotations, decorators, docstring and function-local import statements.  Nothing else."""
